@@ -72,8 +72,11 @@ def route_instances():
             ('time', '/time/head'), ('time', '/time/xsd'), ('time', '/time/iso'), ('time', '/time/http-ntp'),
             ('html', '/streams'), ('html', '/stream/1'), ('html', '/stream/999'),
             ('html', '/play/live/bbb/hand_made.mpd/index.html'), ('html', '/play/vod/synempty/hand_made.mpd/index.html'),
-            ('html', '/play/mps/live/testmps/hand_made.mpd/index.html'), ('api', '/api/manifests'),
+            ('html', '/play/mps/live/testmps/hand_made.mpd/index.html'), ('html', '/play/live/bbb/hand_made/index.html'),
+            ('html', '/play/vod/bbb/manifest_e/index.html'), ('html', '/play/mps/live/testmps/hand_made/index.html'),
+            ('api', '/api/manifests'),
             ('api', '/api/cgiOptions'), ('api', '/api/multi-period-streams'), ('api', '/api/multi-period-streams/testmps'),
+            ('api', '/api/multi-period-streams?ajax=1'), ('api', '/api/multi-period-streams/testmps?ajax=1'),
             ('legacy', '/dash/hand_made.mpd'), ('legacy', '/dash/bbb/enc.mpd'), ('legacy', '/dash/synempty/manifest_vod.mpd'),
             ('html', '/stream/1/1'), ('html', '/stream/1/1/segments'), ('html', '/stream/1/1/segment/2'),
             ('html', '/stream/1/1/segment/99')]
@@ -155,7 +158,8 @@ PRIMARY = ('/dash/live/bbb/hand_made.mpd', '/dash/vod/bbb/hand_made.mpd', LIVE_S
            '/dash/live/synempty/hand_made.mpd', '/dash/vod/synunidx/hand_made.mpd', '/dash/live/synnoref/hand_made.mpd')
 # these must answer 200 without hostile options, otherwise the option code behind them is never reached (non-vacuity)
 MUST_SERVE = ('/dash/live/bbb/hand_made.mpd', '/dash/vod/bbb/hand_made.mpd', LIVE_SEG, '/dash/vod/bbb/bbb_v7/3.m4v', VOD_ENC_SEG,
-              '/mps/live/testmps/hand_made.mpd')
+              '/mps/live/testmps/hand_made.mpd', '/play/live/bbb/hand_made/index.html', '/play/mps/live/testmps/hand_made/index.html',
+              '/api/multi-period-streams?ajax=1', '/patch/bbb/hand_made/1709294400', '/mps/vod/testmps/1/bbb_v7/2.m4v')
 QUICK_VALUES = ['', 'abc', '9' * 30, '503=', 'all', '1']
 
 
